@@ -611,7 +611,7 @@ async def teardown(drv):
         TR.enabled = True
 
 def execute(flow_text, outcome, seed, home, *, policy=None, run_opts=None, runner=run_to_end, hooks=None, name="w",
-            plan=None, point_index=None):
+            plan=None, point_index=None, driver_cls=None):
     """Synchronous entry point: returns (RunResult, events)."""
     logging.disable(logging.CRITICAL)
     TR.events = []
@@ -619,7 +619,7 @@ def execute(flow_text, outcome, seed, home, *, policy=None, run_opts=None, runne
     TR.parents = []
     TR.point_index = point_index
     TR.enabled = True
-    drv = Driver(flow_text, home, outcome, seed, policy=policy, run_opts=run_opts, name=name)
+    drv = (driver_cls or Driver)(flow_text, home, outcome, seed, policy=policy, run_opts=run_opts, name=name)
     async def main():
         if plan is not None:
             return await run_plan(drv, plan)
@@ -631,4 +631,5 @@ def execute(flow_text, outcome, seed, home, *, policy=None, run_opts=None, runne
             drv.clock.uninstall()
         logging.disable(logging.NOTSET)
     res.events = TR.events
+    res.driver = drv
     return res
